@@ -41,6 +41,9 @@ def ocAbove (p : Nat) (a x : F2) : Bool :=
   let t0 := f2mul p t0 x
   f2IsSquare p t0
 
+/-- Montgomery decoding of a precomputed table -/
+def decodeTab (p nwords : Nat) (raw : List F2) : List F2 := raw.map (f2fromMont p nwords)
+
 /-- the searches for the curve (A:C); `forceP`/`forceQ` model the verification hook
     `verif_basis_force_fail` (candidates with hint < force are skipped as if the curve test failed; 0 = pinned code) -/
 def search (p nwords : Nat) (tabRaw ztabRaw : List F2) (A C : F2) (forceP forceQ : Nat) : Search Nat :=
@@ -50,8 +53,8 @@ def search (p nwords : Nat) (tabRaw ztabRaw : List F2) (A C : F2) (forceP forceQ
     ocP := fun h x => decide (forceP ≤ h) && ocNotAbove p A C x
     ocQ := fun h x => decide (forceQ ≤ h) && ocAbove p a x
     mulAlpha := fun z => f2mul p z alpha
-    tab := tabRaw.map (f2fromMont p nwords)
-    ztab := ztabRaw.map (f2fromMont p nwords)
+    tab := decodeTab p nwords tabRaw
+    ztab := decodeTab p nwords ztabRaw
     junk := (0, 0) }
 
 def searchL (lvl : Nat) (A C : F2) (forceP forceQ : Nat) : Option (Search Nat) :=
